@@ -53,11 +53,11 @@ def valueIndex (key : α → κ) (h : Hash α β κ) : Hash α β κ × List (κ
 
 /-- `Delete`: receiver, result (`none` = slice bounds fault).  A missing key returns the receiver itself. -/
 def delete (key : α → κ) (h : Hash α β κ) (k : α) : Hash α β κ × Option (Hash α β κ) :=
-  let (h', ix) := h.valueIndex key
-  match get ix (key k) with
+  let r := h.valueIndex key
+  match get r.2 (key k) with
   | some i =>
-    if i < h.entries.length then (h', some (wrap (h.entries.take i ++ h.entries.drop (i + 1)))) else (h', none)
-  | none => (h', some h')
+    if i < h.entries.length then (r.1, some (wrap (h.entries.take i ++ h.entries.drop (i + 1)))) else (r.1, none)
+  | none => (r.1, some r.1)
 
 /-- `for idx, entry := range hv.entries { if !deleted[idx] { entries = append(entries, entry) } }` -/
 def dropIdx (deleted : List Nat) : List (α × β) → Nat → List (α × β)
@@ -65,9 +65,9 @@ def dropIdx (deleted : List Nat) : List (α × β) → Nat → List (α × β)
   | e :: es, i => if deleted.contains i then dropIdx deleted es (i + 1) else e :: dropIdx deleted es (i + 1)
 
 def deleteAll (key : α → κ) (h : Hash α β κ) (ks : List α) : Hash α β κ × Hash α β κ :=
-  let (h', ix) := h.valueIndex key
-  let deleted := ks.filterMap (fun k => get ix (key k))
-  if deleted.isEmpty then (h', h') else (h', wrap (dropIdx deleted h.entries 0))
+  let r := h.valueIndex key
+  let deleted := ks.filterMap (fun k => get r.2 (key k))
+  if deleted.isEmpty then (r.1, r.1) else (r.1, wrap (dropIdx deleted h.entries 0))
 
 /-- the loop of `mergeEntries` over the other hash's entries; `ix` is the RECEIVER's index and is not updated -/
 def mergeLoop (key : α → κ) (ix : List (κ × Nat)) : List (α × β) → List (α × β) → Option (List (α × β))
@@ -78,12 +78,12 @@ def mergeLoop (key : α → κ) (ix : List (κ × Nat)) : List (α × β) → Li
     | none => mergeLoop key ix (all ++ [e]) es
 
 def mergeEntries (key : α → κ) (h : Hash α β κ) (other : List (α × β)) : Hash α β κ × Option (List (α × β)) :=
-  let (h', ix) := h.valueIndex key
-  (h', mergeLoop key ix h.entries other)
+  let r := h.valueIndex key
+  (r.1, mergeLoop key r.2 h.entries other)
 
 def merge (key : α → κ) (h : Hash α β κ) (other : List (α × β)) : Hash α β κ × Option (Hash α β κ) :=
-  let (h', r) := h.mergeEntries key other
-  (h', r.map wrap)
+  let r := h.mergeEntries key other
+  (r.1, r.2.map wrap)
 
 /-- `MutableHashValue.PutAll`: `hv.entries = hv.mergeEntries(o); hv.index = nil` -/
 def putAll (key : α → κ) (h : Hash α β κ) (other : List (α × β)) : Option (Hash α β κ) :=
@@ -94,17 +94,17 @@ def putM (key : α → κ) (h : Hash α β κ) (k : α) (v : β) : Option (Hash 
 
 /-- `get(key)`: `none` = fault, `some none` = not found -/
 def get (key : α → κ) (h : Hash α β κ) (k : κ) : Hash α β κ × Option (Option β) :=
-  let (h', ix) := h.valueIndex key
-  match GoMap.get ix k with
+  let r := h.valueIndex key
+  match GoMap.get r.2 k with
   | some pos =>
     match h.entries[pos]? with
-    | some e => (h', some (some e.2))
-    | none => (h', none)
-  | none => (h', some none)
+    | some e => (r.1, some (some e.2))
+    | none => (r.1, none)
+  | none => (r.1, some none)
 
 def includesKey (key : α → κ) (h : Hash α β κ) (k : κ) : Hash α β κ × Bool :=
-  let (h', ix) := h.valueIndex key
-  (h', (GoMap.get ix k).isSome)
+  let r := h.valueIndex key
+  (r.1, (GoMap.get r.2 k).isSome)
 
 def keys (h : Hash α β κ) : List α := h.entries.map (·.1)
 def values (h : Hash α β κ) : List β := h.entries.map (·.2)
